@@ -25,8 +25,8 @@ for pid in ids:
 m = {
     "version": 1,
     "setup_cmd": "./setup.sh",
-    "hooks": {"guard": "palette_verif", "enable": "none needed: contracts, harnesses and specs live in /verif and call the public API of /repo/palette (path dependency); no cfg-guarded source change exists",
-              "baseline_off_cmd": "cd /repo && cargo test --workspace --no-fail-fast --offline", "source_commits": [], "add_only": True},
+    "hooks": {"guard": "palette_verif", "enable": "cfg flag: the term-extraction crate /verif/sym is built with RUSTFLAGS=--cfg palette_verif (lib/sengine.py build(), setup.sh); the hook exposes the private CAM16 viewing-condition quantities of BakedParameters (verif_dependent / verif_from_dependent) and the forward cone response compression (verif_adapt) so that C16 contracts can be stated function by function; Kani and Verus builds do not use it; everything else calls the public API only",
+              "baseline_off_cmd": "cd /repo && cargo test --workspace --no-fail-fast --offline", "source_commits": ["a3487ef", "e0b4b9d"], "add_only": True},
     "engines": [
         {"name": "K", "path": "/verif/kani", "serves_properties": [p for p in ids if p in props.PROPS and "K" in props.PROPS[p]["engines"]],
          "kind_free_text": "Kani 0.68/CBMC 6.11 contract harnesses (assume requires / call real function / assert ensures) on the real crate; counterexamples replayed natively through the same harness body"},
